@@ -105,6 +105,12 @@ func (x *Exec) load(l *Loc, st *State) Value {
 			if ev, ok := x.entryValue(l.Key); ok && !st.gdirty {
 				st.cells[l.Key] = ev
 				v = ev
+			} else if iv, ok := x.initialisedGlobal(l.Key, st); ok {
+				// a package-level variable that is set once, by its initialiser, to a constant or to a
+				// pure library call over constants (a compiled regular expression) and never
+				// written again: its value is that value
+				st.cells[l.Key] = iv
+				v = iv
 			} else {
 				t := cellTypeOfLoc(l)
 				nv := x.u.W.Fresh("g."+cellName(l.Key), x.u.W.SortOf(t))
@@ -1249,4 +1255,70 @@ func (x *Exec) allocBound(n Term, st *State, what string) {
 		return
 	}
 	x.obl("alloc[bounded]", "safety", what+" is bounded independently of the file content (opt alloc-bound "+x.fc.Opts["alloc-bound"]+")", st, Le(n, IntLitStr(x.fc.Opts["alloc-bound"])))
+}
+
+
+// initialisedGlobal: the value of a package-level variable of the repository that no function
+// writes at run time and whose package initialiser stores into it exactly once, a constant or a
+// pure library call over constants.
+func (x *Exec) initialisedGlobal(key interface{}, st *State) (Term, bool) {
+	g, ok := key.(*ssa.Global)
+	if !ok || g.Pkg == nil || x.pure {
+		return Term{}, false
+	}
+	e := x.u.eng
+	e.driftMu.Lock()
+	if e.rtWritten == nil {
+		e.rtWritten = runtimeWrittenGlobals(e)
+	}
+	_, written := e.rtWritten[g]
+	e.driftMu.Unlock()
+	if written || !strings.HasPrefix(g.Pkg.Pkg.Path(), modulePath) {
+		return Term{}, false
+	}
+	initFn := g.Pkg.Func("init")
+	if initFn == nil {
+		return Term{}, false
+	}
+	var val ssa.Value
+	n := 0
+	for _, b := range initFn.Blocks {
+		for _, in := range b.Instrs {
+			if sto, ok := in.(*ssa.Store); ok && sto.Addr == ssa.Value(g) {
+				val = sto.Val
+				n++
+			}
+		}
+	}
+	if n != 1 {
+		return Term{}, false
+	}
+	val = resolveNaive(val)
+	switch v := val.(type) {
+	case *ssa.Const:
+		if _, basic := v.Type().Underlying().(*types.Basic); basic && v.Value != nil {
+			return x.u.W.ConstTerm(v.Value, v.Type()), true
+		}
+	case *ssa.Call:
+		callee := v.Common().StaticCallee()
+		if callee == nil || !isPureExternal(callee) {
+			return Term{}, false
+		}
+		var args []Value
+		for _, a := range v.Common().Args {
+			c, ok := resolveNaive(a).(*ssa.Const)
+			if !ok || c.Value == nil {
+				return Term{}, false
+			}
+			if _, basic := c.Type().Underlying().(*types.Basic); !basic {
+				return Term{}, false
+			}
+			args = append(args, x.u.W.ConstTerm(c.Value, c.Type()))
+		}
+		r := x.pureCall(callee, args, st)
+		if t, ok := r.(Term); ok {
+			return t, true
+		}
+	}
+	return Term{}, false
 }
